@@ -310,6 +310,37 @@ Fixpoint module_obj (m : module) : list (text * jvalue) :=
   | _ :: r => module_obj r
   end.
 
+(** Known finding C18-quote-strip (crates/erg_compiler/ty/value.rs ValueObj::from_str, Type::Str arm; outside
+    this model): the frontend computes the value of a string literal from the token text (the string between
+    quotation marks) by stripping three quotation marks from an end that shows three, else one. A single-line
+    literal whose string begins or ends with two quotation marks (or is one quotation mark) therefore reaches
+    the generator with a different [lit.value]. [from_str_strip] transcribes that arm; [known_c18_str s]
+    says that the literal for [s] is mis-valued; [Known_C18 m] that the module contains such a literal. *)
+Definition strip_front (c : text) : text :=
+  match c with
+  | a :: b :: d :: r => if (a =? 34) && (b =? 34) && (d =? 34) then r else if a =? 34 then b :: d :: r else c
+  | a :: r => if a =? 34 then r else c
+  | [] => []
+  end.
+Definition from_str_strip (content : text) : text :=
+  if text_eqb content [34; 34] then [] else rev (strip_front (rev (strip_front content))).
+Definition known_c18_str (s : text) : bool := negb (text_eqb (from_str_strip (34 :: s ++ [34])) s).
+Fixpoint expr_known (e : expr) : bool :=
+  match e with
+  | ELit _ (VStr s) => known_c18_str s
+  | ELit _ _ | EAcc _ _ | EOther _ => false
+  | EList l | ETuple l =>
+    (fix go (l : list expr) : bool := match l with [] => false | x :: r => expr_known x || go r end) l
+  | ERecord l =>
+    (fix go (l : list (text * expr)) : bool :=
+       match l with [] => false | (_, x) :: r => expr_known x || go r end) l
+  | EDict l =>
+    (fix go (l : list (expr * expr)) : bool :=
+       match l with [] => false | (k, x) :: r => expr_known k || expr_known x || go r end) l
+  end.
+Definition Known_C18 (m : module) : bool :=
+  existsb (fun c => match c with CDef _ _ body => expr_known body | CExpr e => expr_known e end) m.
+
 (** the judge applied to an implementation output: it parses, and to the expected object *)
 Fixpoint jvalue_eqb (a b : jvalue) : bool :=
   match a, b with
